@@ -6,10 +6,17 @@ end
 let suite_prefee (line : string) : string =
   let t = toks_of_line line in
   let bps = nz t in let maxfee = nz t in let post = nz t in
-  match M.pre_fee_deposit_amount bps maxfee post with
+  (* optional: a pending fee change (older schedule, epoch of the newer one) and the current epoch *)
+  let (s, epoch) =
+    if at_end t then ({ TransferFee.fs_old_bps = bps; fs_old_max = maxfee; fs_new_bps = bps; fs_new_max = maxfee; fs_new_epoch = zi 0 }, zi 0)
+    else begin
+      let ob = nz t in let om = nz t in let en = nz t in let e = nz t in
+      ({ TransferFee.fs_old_bps = ob; fs_old_max = om; fs_new_bps = bps; fs_new_max = maxfee; fs_new_epoch = en }, e)
+    end in
+  match TransferFee.pre_fee_deposit_amount_at s epoch post with
   | M.Err e -> err_s e
   | M.Ok pre ->
-      (match M.calculate_fee bps maxfee pre with
+      (match TransferFee.calculate_epoch_fee s epoch pre with
        | M.Ok fee -> zs pre ^ " " ^ zs fee
        | M.Err e -> err_s e)
 let () = register "prefee" suite_prefee
